@@ -100,6 +100,9 @@ static void set_str_attr(hid_t root, const char *name, const std::string &val) {
     if (H5Aexists(root, name) > 0) H5Adelete(root, name);
     hid_t ty = H5Tcopy(H5T_C_S1);
     H5Tset_size(ty, H5T_VARIABLE);
+    H5Tset_cset(ty, H5T_CSET_UTF8);            // as the library writes its strings (an ASCII string attribute is read
+                                               // back by LocID::getAttr only after some UTF-8 string has been converted
+                                               // in the same process - an HDF5 conversion-path quirk that is not C09's)
     hid_t sp = H5Screate(H5S_SCALAR);
     hid_t at = H5Acreate2(root, name, ty, sp, H5P_DEFAULT, H5P_DEFAULT);
     const char *p = val.c_str();
@@ -252,7 +255,7 @@ static std::string in_child(const std::function<int()> &fn) {
     if (pid < 0) throw std::logic_error("fork failed");
     if (pid == 0) {
         struct rlimit rl;
-        rl.rlim_cur = 3; rl.rlim_max = 4;           // seconds of CPU time of this child
+        rl.rlim_cur = 2; rl.rlim_max = 3;           // seconds of CPU time of this child
         ::setrlimit(RLIMIT_CPU, &rl);
         int rc = 9;
         try { rc = fn(); } catch (...) { rc = 8; }
